@@ -459,12 +459,11 @@ def _run(ctx: Ctx) -> None:
         capc = "none" if c["cap"] == 0 else "tiny" if c["cap"] <= HDR_UNITS + c["script"][0] else "all" if c["cap"] > tot else "mid"
         act = lab.split("(")[0]
         how = lab.split(",")[1].strip(' ")') if act == "Resume" else ""
-        return (act, how, c["codec"], c["api"], capc, d["srv"]["hit"] if act == "Continue" else None,
-                d["last"]["n"] > 1, d["cli"]["mode"])
+        return (lab if act in ("Continue", "Evict") else act, how, c["codec"], c["api"], capc,
+                d["srv"]["hit"] if act == "Continue" else None, d["last"]["n"] > 1, d["cli"]["mode"])
 
     paths = g.edge_cover_paths(ctx.rng, max_paths=400 if quick else 4000, key=key)
-    if not quick:
-        paths += g.random_paths(ctx.rng, 2500, 30)
+    paths += g.random_paths(ctx.rng, 100 if quick else 2500, 30)
     ctx.extra["graph"] = {"nodes": len(g.raw), "edges": g.n_edges, "histories": len(paths)}
     ctx.rule = ("case = one history (configuration + which worker serves each turn + resume points/kinds + evictions) "
                 "replayed through the real client, or one (script, cap byte value, codec) of the cap sweep; every HTTP "
